@@ -45,6 +45,7 @@ type frame struct {
 type Violation struct {
 	kind      string
 	msg       string
+	detail    string
 	model     map[string]uint64
 	hvals     []NondetVal
 	env       []FSPre
@@ -429,7 +430,9 @@ func (ex *Exec) call(fnv Value, args []Value, site ssa.Instruction) Value {
 	if ex.depth > 200 {
 		panic(unsupported("call depth"))
 	}
-	defer func() { ex.depth-- }()
+	th := ex.sch.cur
+	th.stack = append(th.stack, fn)
+	defer func() { ex.depth--; th.stack = th.stack[:len(th.stack)-1] }()
 	fr := &frame{fn: fn, env: map[ssa.Value]Value{}}
 	for i, p := range fn.Params {
 		fr.env[p] = args[i]
@@ -1235,6 +1238,20 @@ func (ex *Exec) prepareCall(fr *frame, c *ssa.CallCommon) (Value, []Value) {
 				}
 				panic(unsupported("pipe." + mname))
 			}}, args
+		}
+		if ho, ok := recv.v.(*HashObj); ok {
+			mname := c.Method.Name()
+			for _, a := range c.Args {
+				args = append(args, ex.get(fr, a))
+			}
+			return Native{"md5." + mname, func(ex *Exec, a []Value) Value { return ex.hashMethod(ho, mname, a) }}, args
+		}
+		if co, ok := recv.v.(*CoderObj); ok {
+			mname := c.Method.Name()
+			for _, a := range c.Args {
+				args = append(args, ex.get(fr, a))
+			}
+			return Native{"coder." + mname, func(ex *Exec, a []Value) Value { return ex.coderMethod(co, mname, a) }}, args
 		}
 		if fi, ok := recv.v.(*FileInfoObj); ok {
 			mname := c.Method.Name()
